@@ -6,7 +6,9 @@
 #include "common.hpp"
 
 #include <algorithm>
+#include <cmath>
 #include <functional>
+#include <type_traits>
 #include <numeric>
 #include <vector>
 
@@ -281,11 +283,150 @@ static void outlist(Out& o, Buf const& d, std::ptrdiff_t ret)
 
 #define IMPL(...) guarded(impl, [&](Out& o) { __VA_ARGS__; finish(o); })
 
+
+// ---- fix-miss round 5: the numeric folds on HETEROGENEOUS arithmetic types: ops "nx_<alg> <tp> <o> ..." ---------------------
+// <tp> selects (element type of range 1, element type of range 2, type of init, element type of the destination); a token of a
+// floating-point range / init is the value in HALVES (7 -> 3.5).  Results are printed with their static type and scaled by 64
+// (every value of the run is a multiple of 1/64).  The reference is the std algorithm on the same types.
+template <typename T> static char const* tyname()
+{
+    if constexpr (std::is_same_v<T, unsigned char>) { return "u8"; }
+    else if constexpr (std::is_same_v<T, int>) { return "i32"; }
+    else if constexpr (std::is_same_v<T, long long>) { return "i64"; }
+    else if constexpr (std::is_same_v<T, float>) { return "f32"; }
+    else if constexpr (std::is_same_v<T, double>) { return "f64"; }
+    else { return "other"; }
+}
+template <typename T> static T nx_dec(i64 t)
+{
+    if constexpr (std::is_floating_point_v<T>) { return static_cast<T>(t) / 2; } else { return static_cast<T>(t); }
+}
+template <typename T> static std::vector<T> nx_vec(std::vector<i64> const& l, std::size_t extra = 0)
+{
+    std::vector<T> v;
+    for (auto x : l) { v.push_back(nx_dec<T>(x)); }
+    for (std::size_t i = 0; i < extra; ++i) { v.push_back(T(99)); }
+    return v;
+}
+template <typename T> static void nx_put(Out& o, T x) { o.tok(tyname<T>()).num(static_cast<i64>(std::llround(static_cast<double>(x) * 64))); }
+template <typename D> static void nx_putl(Out& o, std::vector<D> const& d, std::ptrdiff_t r)
+{
+    o.tok("ok").tok(tyname<D>());
+    if (r < 0 || static_cast<std::size_t>(r) + 1 > d.size()) { o.tok("bad-return").num(r); return; }
+    o.num(r);
+    for (std::ptrdiff_t i = 0; i < r; ++i) { o.num(static_cast<i64>(std::llround(static_cast<double>(d[static_cast<std::size_t>(i)]) * 64))); }
+    for (std::size_t i = static_cast<std::size_t>(r); i < d.size(); ++i) { if (d[i] != D(99)) { o.tok("wrote-past-return"); break; } }
+}
+// transparent operations (generic: the operands arrive with their own types)
+template <int K> struct GOp {
+    template <typename A, typename B> constexpr auto operator()(A a, B b) const
+    {
+        if constexpr (K == 0) { return a + b; } else if constexpr (K == 1) { return a - b; } else { return a * b; }
+    }
+};
+struct GSq { template <typename A> constexpr auto operator()(A a) const { return a * a; } };
+
+template <typename E1, typename E2, typename T, typename D>
+static bool nx_run(std::string const& op, Toks& in, Out& impl, Out& ref)
+{
+    int ko = static_cast<int>(in.num());
+    if (op == "accumulate") {
+        T init = nx_dec<T>(in.num()); auto a = nx_vec<E1>(in.list());
+        auto b = a.data(); auto e = a.data() + a.size();
+        IMPL(o.tok("ok"); if (ko == 0) { nx_put(o, etl::accumulate(b, e, init)); } else if (ko == 1) { nx_put(o, etl::accumulate(b, e, init, GOp<1> {})); } else { nx_put(o, etl::accumulate(b, e, init, GOp<2> {})); });
+        ref.tok("ok");
+        if (ko == 0) { nx_put(ref, std::accumulate(b, e, init)); } else if (ko == 1) { nx_put(ref, std::accumulate(b, e, init, GOp<1> {})); } else { nx_put(ref, std::accumulate(b, e, init, GOp<2> {})); }
+        return true;
+    }
+    if (op == "reduce") {
+        bool d = in.num() != 0;
+        T init = nx_dec<T>(in.num()); auto a = nx_vec<E1>(in.list());
+        auto b = a.data(); auto e = a.data() + a.size();
+        IMPL(o.tok("ok"); if (ko == 0) { nx_put(o, etl::reduce(b, e, init)); } else if (ko == 1) { nx_put(o, etl::reduce(b, e, init, GOp<1> {})); } else if (ko == 2) { nx_put(o, etl::reduce(b, e, init, GOp<0> {})); } else { nx_put(o, etl::reduce(b, e)); });
+        if (d) {
+            ref.tok("ok");
+            if (ko == 0) { nx_put(ref, std::reduce(b, e, init)); } else if (ko == 1) { nx_put(ref, std::reduce(b, e, init, GOp<1> {})); } else if (ko == 2) { nx_put(ref, std::reduce(b, e, init, GOp<0> {})); } else { nx_put(ref, std::reduce(b, e)); }
+        }
+        return true;
+    }
+    if (op == "inner_product" || op == "transform_reduce") {
+        bool d = in.num() != 0;
+        T init = nx_dec<T>(in.num()); auto a = nx_vec<E1>(in.list()); auto s = nx_vec<E2>(in.list());
+        auto b = a.data(); auto e = a.data() + a.size(); auto b2 = s.data();
+        if (op == "inner_product") {
+            IMPL(o.tok("ok"); if (ko == 0) { nx_put(o, etl::inner_product(b, e, b2, init)); } else if (ko == 1) { nx_put(o, etl::inner_product(b, e, b2, init, GOp<0> {}, GOp<2> {})); } else { nx_put(o, etl::inner_product(b, e, b2, init, GOp<1> {}, GOp<0> {})); });
+            ref.tok("ok");
+            if (ko == 0) { nx_put(ref, std::inner_product(b, e, b2, init)); } else if (ko == 1) { nx_put(ref, std::inner_product(b, e, b2, init, GOp<0> {}, GOp<2> {})); } else { nx_put(ref, std::inner_product(b, e, b2, init, GOp<1> {}, GOp<0> {})); }
+        } else {
+            IMPL(o.tok("ok"); if (ko == 0) { nx_put(o, etl::transform_reduce(b, e, b2, init)); } else if (ko == 1) { nx_put(o, etl::transform_reduce(b, e, b2, init, GOp<0> {}, GOp<2> {})); } else { nx_put(o, etl::transform_reduce(b, e, b2, init, GOp<1> {}, GOp<0> {})); });
+            if (d) {
+                ref.tok("ok");
+                if (ko == 0) { nx_put(ref, std::transform_reduce(b, e, b2, init)); } else if (ko == 1) { nx_put(ref, std::transform_reduce(b, e, b2, init, GOp<0> {}, GOp<2> {})); } else { nx_put(ref, std::transform_reduce(b, e, b2, init, GOp<1> {}, GOp<0> {})); }
+            }
+        }
+        return true;
+    }
+    if (op == "transform_reduce1") {
+        bool d = in.num() != 0;
+        T init = nx_dec<T>(in.num()); auto a = nx_vec<E1>(in.list());
+        auto b = a.data(); auto e = a.data() + a.size();
+        IMPL(o.tok("ok"); if (ko == 0) { nx_put(o, etl::transform_reduce(b, e, init, GOp<0> {}, GSq {})); } else { nx_put(o, etl::transform_reduce(b, e, init, GOp<1> {}, GSq {})); });
+        if (d) { ref.tok("ok"); if (ko == 0) { nx_put(ref, std::transform_reduce(b, e, init, GOp<0> {}, GSq {})); } else { nx_put(ref, std::transform_reduce(b, e, init, GOp<1> {}, GSq {})); } }
+        return true;
+    }
+    if (op == "partial_sum" || op == "adjacent_difference") {
+        auto l = in.list();
+        auto a = nx_vec<E1>(l);
+        auto b = a.data(); auto e = a.data() + a.size();
+        std::vector<D> dst(l.size() + 1, D(99)); std::vector<D> rd(l.size() + 1, D(99));
+        if (op == "partial_sum") {
+            IMPL(auto r = (ko == 0 ? etl::partial_sum(b, e, dst.data()) : (ko == 1 ? etl::partial_sum(b, e, dst.data(), GOp<1> {}) : etl::partial_sum(b, e, dst.data(), GOp<0> {}))) - dst.data(); nx_putl(o, dst, r));
+            auto r = (ko == 0 ? std::partial_sum(b, e, rd.data()) : (ko == 1 ? std::partial_sum(b, e, rd.data(), GOp<1> {}) : std::partial_sum(b, e, rd.data(), GOp<0> {}))) - rd.data();
+            nx_putl(ref, rd, r);
+        } else {
+            IMPL(auto r = (ko == 0 ? etl::adjacent_difference(b, e, dst.data()) : (ko == 1 ? etl::adjacent_difference(b, e, dst.data(), GOp<0> {}) : etl::adjacent_difference(b, e, dst.data(), GOp<1> {}))) - dst.data(); nx_putl(o, dst, r));
+            auto r = (ko == 0 ? std::adjacent_difference(b, e, rd.data()) : (ko == 1 ? std::adjacent_difference(b, e, rd.data(), GOp<0> {}) : std::adjacent_difference(b, e, rd.data(), GOp<1> {}))) - rd.data();
+            nx_putl(ref, rd, r);
+        }
+        return true;
+    }
+    if (op == "iota") {
+        auto n = static_cast<std::size_t>(in.num());
+        T v = nx_dec<T>(in.num());
+        std::vector<D> dst(n + 1, D(99)); std::vector<D> rd(n + 1, D(99));
+        IMPL(etl::iota(dst.data(), dst.data() + n, v); nx_putl(o, dst, static_cast<std::ptrdiff_t>(n)));
+        std::iota(rd.data(), rd.data() + n, v);
+        nx_putl(ref, rd, static_cast<std::ptrdiff_t>(n));
+        return true;
+    }
+    return false;
+}
+static bool nx_case(std::string const& op, Toks& in, Out& impl, Out& ref)
+{
+    g_oob = false;
+    using u8 = unsigned char;
+    using ll = long long;
+    switch (in.num()) {
+    case 0: return nx_run<double, double, int, int>(op, in, impl, ref);
+    case 1: return nx_run<int, int, float, float>(op, in, impl, ref);
+    case 2: return nx_run<int, int, u8, u8>(op, in, impl, ref);
+    case 3: return nx_run<int, double, double, double>(op, in, impl, ref);
+    case 4: return nx_run<double, int, int, double>(op, in, impl, ref);
+    case 5: return nx_run<u8, u8, int, int>(op, in, impl, ref);
+    case 6: return nx_run<ll, int, int, int>(op, in, impl, ref);
+    case 7: return nx_run<float, float, double, double>(op, in, impl, ref);
+    case 8: return nx_run<int, int, ll, ll>(op, in, impl, ref);
+    case 9: return nx_run<u8, int, u8, u8>(op, in, impl, ref);
+    case 10: return nx_run<int, int, double, int>(op, in, impl, ref);
+    default: return false;
+    }
+}
 template <typename TP>
 static bool run_case_T(std::string const& op, Toks& in, Out& impl, Out& ref);
 bool vh::run_case(std::string const& op_in, Toks& in, Out& impl, Out& ref)
 {
     std::string op = op_in;
+    if (op.rfind("nx_", 0) == 0) { return nx_case(op.substr(3), in, impl, ref); }
     int tk = 0;
     auto n = op.size();
     if (n > 3 && op[n - 3] == '_' && op[n - 2] == 't' && op[n - 1] >= '1' && op[n - 1] <= '4') { tk = op[n - 1] - '0'; op.resize(n - 3); }
